@@ -301,3 +301,13 @@ func SealSegment(cph int, fk, np []byte, i uint32, last bool, chunk []byte) ([]b
 
 // BoundaryCounters are the segment numbers around the byte boundaries of the 32-bit counter.
 var BoundaryCounters = []uint32{0, 1, 255, 256, 65535, 65536, 1<<24 - 1, 1 << 24, 1<<24 + 1, 1 << 31, 1<<32 - 2, 1<<32 - 1}
+
+// HeaderLen is the size in bytes of the header the README prescribes for a manifest: scheme line, compact JSON
+// manifest and the base64 of a 32-byte MAC, each followed by LF.
+func HeaderLen(m Manifest) int {
+	j, err := json.Marshal(m)
+	if err != nil {
+		return -1
+	}
+	return len(SchemeLine) + 1 + len(j) + 1 + base64.StdEncoding.EncodedLen(sha256.Size) + 1
+}
